@@ -244,8 +244,12 @@ def probe_instance(crate, S, clos):
         if not os.path.exists(p) or open(p).read() != new:
             open(p, "w").write(new)
     lock = os.path.join(d, "Cargo.lock")
-    if not os.path.exists(lock):
-        shutil.copy(os.path.join(BUILD["repo"], "Cargo.lock"), lock)
+    src_lock = open(os.path.join(BUILD["repo"], "Cargo.lock"), "rb").read()
+    stamp = os.path.join(d, "Cargo.lock.from")
+    sha = hashlib.sha1(src_lock).hexdigest()
+    if not os.path.exists(lock) or not os.path.exists(stamp) or open(stamp).read() != sha:
+        open(lock, "wb").write(src_lock)          # same dependency versions as the repository under test
+        open(stamp, "w").write(sha)
     caps = [ver] + [c for f, c in PROBE_CAPS if f in clos]
     return d, caps
 
@@ -260,14 +264,28 @@ def probe_build(crate, S, clos, jobs):
     exe = os.path.join(tdir, "debug", "c19-probe")
     keep = None
     if rc == 0:
-        keep = os.path.join(d, "c19-probe")
-        shutil.copy2(exe, keep)       # the next configuration overwrites target/debug/c19-probe
+        keep = os.path.join(d, "c19-probe")   # the next configuration replaces target/debug/c19-probe
+        tmp = keep + ".new"
+        try:
+            if os.path.exists(tmp):
+                os.remove(tmp)
+            os.link(exe, tmp)             # no write descriptor in this (multi-threaded, forking) process
+        except OSError:
+            shutil.copy2(exe, tmp)
+        os.replace(tmp, keep)
     return {"dir": d, "exe": keep, "ok": rc == 0, "caps": caps[1:], "secs": round(time.time() - t0, 2),
             "cmd": "cd %s && CARGO_TARGET_DIR=%s %s" % (d, tdir, " ".join(cmd)), "errors": [] if rc == 0 else first_errors(out)}
 
 
 def probe_run(exe, commands):
-    rc, out = sh([exe], inp="\n".join(commands) + "\n", timeout=1200)
+    for attempt in range(20):
+        try:
+            rc, out = sh([exe], inp="\n".join(commands) + "\n", timeout=1200)
+            break
+        except OSError as e:              # ETXTBSY: a child forked by another thread still holds a descriptor
+            if e.errno != 26 or attempt == 19:
+                raise RuntimeError("cannot run %s: %s" % (exe, e))
+            time.sleep(0.2)
     lines = out.split("\n")
     if lines and lines[-1] == "":
         lines.pop()
@@ -578,8 +596,12 @@ def main():
             work["evaluations"] += w["evaluations"]
     after = git_state(REPO)
     lock_after = hashlib.sha1(open(os.path.join(REPO, "Cargo.lock"), "rb").read()).hexdigest()
-    if before != after or lock_before != lock_after:
-        rep["disagreements"].append({"class": "repo-modified", "what": "running cargo changed the repository under test (git status before/after differ)", "replay": {"before": before, "after": after}})
+    if lock_before != lock_after:
+        rep["disagreements"].append({"class": "repo-modified", "what": "Cargo.lock of the repository under test changed while cargo was running", "replay": {"before": before, "after": after}})
+    elif before != after:
+        # cargo (--locked, CARGO_TARGET_DIR elsewhere) writes nothing but the lock file and target/: somebody else is
+        # editing the repository; the run may have seen two states of it
+        notes.append("git status of %s changed during the run (not Cargo.lock): before %r, after %r" % (REPO, (before or "").strip()[:200], (after or "").strip()[:200]))
 
     order = {c: coq_order(mans[c]["features"]) for c in CRATES}
     for r in results:
